@@ -81,6 +81,8 @@ def _root_spec(full, S):
         ["lk2/.links", "f", "Type=0\nPath=/../secret.txt\nHost=+\nPort=+\n\nName=No type\nPath=/../secret.txt\n\n"
                             "Name=Dot slash\nPath=./../../secret.txt\n\nName=Dir no type\nPath=/../rootx\n\nName=Inside\nPath=/readme.txt\n"],
         ["lk2/in.txt", "f", "in\n"],
+        # directories named after things the server treats specially (a site's own icons, per-file overrides)
+        [".icons/text.gif", "f", "GIF89a site icon"], [".icons/sub/x.gif", "f", "GIF89a"],
         ["dir/file.txt", "f", "file\n"],
         ["dir/sub/deep.txt", "f", "deep\n"],
         ["box.mbox", "f", sites.mbox_text(["inside one", "inside two"])],
@@ -170,6 +172,10 @@ BASES = ["/", "/gm", "/lk", "/gm", "/lk", "/lk2", "/lk2", "/readme.txt", "/dir",
          "x/file.txt", "x/readme.txt", "x", "x/new/1.msg", "x|/MAILDIR-MESSAGE/1", "/..|/MAILDIR-MESSAGE/1", "/..?", "/..|", "/dir/..|/MAILDIR-MESSAGE/1", "/../rootx|/MAILDIR-MESSAGE/1", "/dir/../..|/MAILDIR-MESSAGE/1"]
 
 
+# the reserved namespaces the protocols answer themselves, before any handler (and its selector filter) exists
+BASES += ["/PYGOPHERD-HTTPPROTO-ICONS/text.gif", "/PYGOPHERD-HTTPPROTO-ICONS/../../secret.txt", "/PYGOPHERD-HTTPPROTO-ICONS/../secret.txt",
+          "/PYGOPHERD-HTTPPROTO-ICONS/..%2f..%2fsecret.txt", "/PYGOPHERD-HTTPPROTO-ICONS/%2e%2e/%2e%2e/secret.txt", "/PYGOPHERD-HTTPPROTO-ICONS",
+          "/GEMINI-QUERY/../../secret.txt", "/GEMINI-QUERY/dir"]  # (the 'wap' forms put their own prefix in front of each of these)
 NOSLASH = ["x/file.txt", "x/readme.txt", "x", "x/new/1.msg", "x/new", "readme.txt", "dir/file.txt", "x/../root/readme.txt", "arc.zip/a.txt"]
 # virtual arguments that would be shell syntax if they ever reached a shell (@S@ = the sandbox directory)
 BASES += [b + sep + arg for b in ("/plain.exe", "/run.sh", "/cgi/no shebang", "/hello.pyg")
@@ -334,6 +340,13 @@ def enumerate_cases(tier, seed):
     for su in (False, True):
         for cwd in ("cwd", "/"):
             yield {"mode": "startup-chroot-refused", "setuid": su, "cwd": cwd}
+    # the reserved namespaces, climbing, in every form and both worlds
+    for d in ("/PYGOPHERD-HTTPPROTO-ICONS/../../secret.txt", "/PYGOPHERD-HTTPPROTO-ICONS/../secret.txt", "/PYGOPHERD-HTTPPROTO-ICONS/text.gif",
+              "/PYGOPHERD-HTTPPROTO-ICONS/sub/../../../secret.txt", "/GEMINI-QUERY/../../secret.txt", "/GEMINI-QUERY/../secret.txt"):
+        for form in FORMS:
+            for layers in (0, 1):
+                yield {"full": layers == 1, "cwd": "/", "worldB": "absent" if layers else "diff", "form": form, "noslash": False, "sel": d, "inj": "",
+                       "style": "none", "layers": layers, "enc_all": False, "lower_hex": False}
     # a real server process started with a relative document root, in the foreground and detached
     for detach in (True, False):
         for prefix, st_ in (("", "ForkingTCPServer"), ("./", "ThreadingTCPServer")):
